@@ -245,6 +245,8 @@ def run_property(prop, tier, seed, rules_mod, repo=None, quiet=False, selftest=T
         for o in obs:
             counts[o.rule] = counts.get(o.rule, 0) + 1
         failing = set(o.rule for o in obs if not o.ok)
+        if os.environ.get('MYTHVERIF_COUNTS'):
+            print('rule counts:', sorted(counts.items()), file=sys.stderr)
         for rule, n in ctx.floors.items():
             # a rule that already reports a violation is not additionally "below floor":
             # the obligations that depended on the violated construct legitimately vanish
